@@ -194,6 +194,14 @@ func (s *Sys) DoRead(r ReadReq) Resp {
 
 func runC17(env *Env, rc *RunCtx) {
 	t := rc.CaseTape
+	// mode fresh: a registry none of whose lazily built members (mappers, engines,
+	// handlers) exists yet; which request comes first - a read or a write - is the
+	// tape's choice, and writes keep arriving between the reads
+	fresh := rc.Mode == "fresh"
+	if fresh {
+		env = NewEnv(rc.T, EnvOpts{NoWarm: true})
+		defer env.Close()
+	}
 	sys := env.SysTier()
 	env.Wipe()
 	env.UseConfigCached(plainCfg, Limits{Depth: 100, Width: 1000, BatchMax: 10, BatchPar: 5})
@@ -202,6 +210,10 @@ func runC17(env *Env, rc *RunCtx) {
 	m := &Model{}
 	// a stored state D to protect
 	nW := t.Range(0, 12)
+	if fresh && t.Bool(1, 2) {
+		nW = 0 // the first request this registry ever sees is a read
+		rc.Count("probe_first_request_is_a_read", 1)
+	}
 	for i := 0; i < nW; i++ {
 		op := dom.GenOp(t, m.T, false)
 		if !op.IsWrite() {
@@ -217,6 +229,19 @@ func runC17(env *Env, rc *RunCtx) {
 	nReads := t.Range(5, 25)
 	h := fnv64(before, 0)
 	for i := 0; i < nReads; i++ {
+		if fresh && t.Bool(1, 5) {
+			// a write between the reads: the protected state moves on
+			op := dom.GenOp(t, m.T, false)
+			if op.IsWrite() {
+				valid, after, _ := dom.Expect(op, m)
+				if r, _ := sys.Do(op); r.OK() && valid {
+					m = after
+				}
+				before, rows = env.Dump()
+				hist = append(hist, fmt.Sprintf("(write) %s", op))
+				rc.Count("probe_write_between_reads", 1)
+			}
+		}
 		rq := GenReadReq(t, dom, m.T, i)
 		// a quarter of the requests are hostile (mutated) requests to the read and
 		// syntax APIs: a malformed request must not write either
